@@ -629,3 +629,47 @@ pub fn first_param_may_not_self(typ: &LuaType) -> bool {
     }
     false
 }
+
+#[cfg(emmyluals_emmylua_analyzer_rust_verif)]
+impl LuaTypeIndex {
+    /// Verification hook: entry counts of every container of this index.
+    pub fn verif_sizes(&self) -> Vec<(&'static str, usize)> {
+        vec![
+            ("file_namespace", self.file_namespace.len()),
+            ("file_using_namespace", self.file_using_namespace.len()),
+            ("file_types", self.file_types.len()),
+            (
+                "file_types/ids",
+                self.file_types.values().map(|v| v.len()).sum(),
+            ),
+            ("full_name_type_map", self.full_name_type_map.len()),
+            (
+                "full_name_type_map/locations",
+                self.full_name_type_map
+                    .values()
+                    .map(|d| d.get_locations().len())
+                    .sum(),
+            ),
+            ("generic_params", self.generic_params.len()),
+            ("supers", self.supers.len()),
+            ("supers/items", self.supers.values().map(|v| v.len()).sum()),
+            ("types", self.types.len()),
+            ("in_filed_type_owner", self.in_filed_type_owner.len()),
+            (
+                "in_filed_type_owner/owners",
+                self.in_filed_type_owner.values().map(|v| v.len()).sum(),
+            ),
+            ("global_name_type_map", self.global_name_type_map.len()),
+            ("internal_name_type_map", self.internal_name_type_map.len()),
+            (
+                "internal_name_type_map/names",
+                self.internal_name_type_map.values().map(|v| v.len()).sum(),
+            ),
+            ("local_name_type_map", self.local_name_type_map.len()),
+            (
+                "local_name_type_map/names",
+                self.local_name_type_map.values().map(|v| v.len()).sum(),
+            ),
+        ]
+    }
+}
